@@ -222,6 +222,15 @@ class Gen:
         a.anims.append((prop, Fr(1), Fr(8), v1))
         a.anims.append((prop, Fr(3), Fr(5), v0))
         self.classes.add("overlapping-steps-restating-specified")
+    if a.kind != "Region" and rng.random() < self.p["p_anim"] * 0.2:
+      # the same for display: hidden by a first step, shown again by a later step inside it (the element is present
+      # exactly while the later step is active or no step is)
+      a.styles.pop("Display", None)
+      a.anims = [x for x in a.anims if x[0] != "Display"]
+      b = rng.choice([Fr(0), Fr(1), Fr(2)])
+      a.anims.append(("Display", b, b + Fr(7), E("DisplayType", "none")))
+      a.anims.append(("Display", b + Fr(2), b + Fr(4), E("DisplayType", "auto")))
+      self.classes.add("overlapping-display-steps")
     if a.kind == "Region" and rng.random() < 0.08:
       wm = rng.choice(["lrtb", "rltb"])
       a.styles["WritingMode"] = E("WritingModeType", wm)
